@@ -1419,18 +1419,18 @@ func genLatency(repo string) string {
 // genConsts: the integer constants of the sequential machines' packages (decode cost, cache geometry).
 func genConsts(repo string) string {
 	var sb strings.Builder
-	fmt.Fprintf(&sb, header, "proc/mvp1 … proc/mvp5 (package-level integer constants)")
+	fmt.Fprintf(&sb, header, "proc/mvp1 … proc/mvp8-0 (package-level integer constants)")
 	sb.WriteString("\nnamespace Gen.Consts\n\n")
-	for _, v := range []string{"mvp1", "mvp2", "mvp3", "mvp4", "mvp5"} {
+	for _, v := range []string{"mvp1", "mvp2", "mvp3", "mvp4", "mvp5", "mvp6-0", "mvp6-1", "mvp6-2", "mvp6-3", "mvp7-0", "mvp7-1", "mvp8-0"} {
 		p := loadPkg(repo, "proc/"+v, "github.com/teivah/majorana/proc/"+v)
 		scope := p.pkg.Scope()
-		fmt.Fprintf(&sb, "namespace %s\n", v)
+		fmt.Fprintf(&sb, "namespace %s\n", strings.ReplaceAll(v, "-", "_"))
 		for _, n := range scope.Names() {
 			if c, ok := scope.Lookup(n).(*types.Const); ok && c.Val().Kind() == constant.Int {
 				fmt.Fprintf(&sb, "def %s : Int := %s\n", n, c.Val().ExactString())
 			}
 		}
-		fmt.Fprintf(&sb, "end %s\n\n", v)
+		fmt.Fprintf(&sb, "end %s\n\n", strings.ReplaceAll(v, "-", "_"))
 	}
 	sb.WriteString("end Gen.Consts\n")
 	return sb.String()
